@@ -312,6 +312,32 @@ class C11(Prop):
                             break
         real_c = [x if isinstance(x, str) else sorted([r[:3] for r in x]) for x in real]
         if fail is None and real_c != model:
+            # Failing-input search: the model's per-session delivered stream IS the specification (theorems
+            # triggers_refine_squash / delivered_in_order_once / lost_only_if_superseded_or_overflow: delivered =
+            # squash of the permitted triggers). If the real per-session stream differs, the property fails on this
+            # history (an event lost, invented, reordered or wrongly superseded); if only the tick at which a
+            # response arrives differs, it is a correspondence break.
+            sid_of = {idx: op[1] for idx, op in enumerate(ops) if op[0] == 'listen'}
+
+            def streams(outs):
+                st = {}
+                for x in outs:
+                    if isinstance(x, str):
+                        continue
+                    for r in x:
+                        st.setdefault(sid_of.get(r[0]), []).extend(r[2])
+                return st
+            rs, ms = streams(real_c), streams(model)
+            for sid in sorted(set(rs) | set(ms), key=str):
+                a, b = rs.get(sid, []), ms.get(sid, [])
+                n = min(len(a), len(b))
+                if a[:n] != b[:n]:
+                    fail = Failure('property', f'session {sid} was delivered events {a} but the specification (delivered '
+                                   f'= squash of the permitted triggers: exactly once, in order, superseded only by a newer '
+                                   f'update of the same object, dropped only beyond the queue size) prescribes {b}',
+                                   real=real_c, model=model)
+                    break
+        if fail is None and real_c != model:
             k = next(i for i in range(len(model)) if real_c[i] != model[i])
             fail = Failure('correspondence', f'first difference at op {k} {ops[k]}: real {real_c[k]} model {model[k]}',
                            real=real_c, model=model)
